@@ -24,7 +24,11 @@ def coord_axis(rng, n, kind=None):
     elif kind == "neg":
         c = [Fraction(-n + k) for k in range(n)]
     elif kind == "shuffled":
-        c = [Fraction(rng.randint(-3, 3)) + Fraction(k, 2) for k in range(n)]
+        # pairwise DISTINCT coordinates: the order NumPy's argsort gives equal keys is not defined (quicksort), the model's sort
+        # is stable — repeated coordinates are judged by the slice-multiset oracle of C02, not by the correspondence
+        x0 = Fraction(rng.randint(-3, 3))
+        c = [x0 + Fraction(k, 2) for k in range(n)]
+        rng.shuffle(c)
         while n > 1 and (c == sorted(c) or c == sorted(c, reverse=True)):
             rng.shuffle(c)
             if n == 2:
